@@ -84,8 +84,9 @@ type Contract struct {
 	File        string
 	Line        int
 	Trusted     bool
-	Proof       string   // lemma proof hint: "", "induction <var>"
-	Globals     []string // package-level tables whose dumped contents are assumed at entry ("Name" or "pkg.Name")
+	Proof       string               // lemma proof hint: "", "induction <var>"
+	Globals     []string             // package-level tables whose dumped contents are assumed at entry ("Name" or "pkg.Name")
+	Asserts     map[string][]*Clause // "callee#ordinal" -> assertions checked just before that call
 }
 
 type letDef struct {
@@ -219,7 +220,7 @@ func (eng *Engine) typeID(t types.Type) int {
 var clauseKeywords = map[string]bool{
 	"spec": true, "pred": true, "func": true, "lemma": true, "mode": true, "requires": true, "ensures": true,
 	"modifies": true, "let": true, "loop": true, "use": true, "table": true, "property": true, "opt": true,
-	"trusted": true, "iface": true, "field": true, "proof": true, "abstract": true, "globals": true,
+	"trusted": true, "iface": true, "field": true, "proof": true, "abstract": true, "globals": true, "assert": true,
 }
 
 type rawClause struct {
@@ -356,6 +357,30 @@ func (eng *Engine) loadContractFile(pkg *packages.Package, file string) error {
 					cur.Opts[strings.TrimSpace(kv[0])] = strings.TrimSpace(kv[1])
 				} else {
 					cur.Opts[strings.TrimSpace(rc.text)] = "true"
+				}
+			case "assert":
+				// assert call(callee, n): expr   -- checked in the state just before the n-th call of callee
+				t := strings.TrimSpace(rc.text)
+				if !strings.HasPrefix(t, "call(") {
+					fail(rc.line, "assert needs 'call(callee, n): expr'")
+					continue
+				}
+				cl := strings.Index(t, "):")
+				if cl < 0 {
+					fail(rc.line, "assert needs 'call(callee, n): expr'")
+					continue
+				}
+				parts := strings.Split(t[5:cl], ",")
+				if len(parts) != 2 {
+					fail(rc.line, "assert needs 'call(callee, n): expr'")
+					continue
+				}
+				key := strings.TrimSpace(parts[0]) + "#" + strings.TrimSpace(parts[1])
+				if c := parseE(rc, strings.TrimSpace(t[cl+2:])); c != nil {
+					if cur.Asserts == nil {
+						cur.Asserts = map[string][]*Clause{}
+					}
+					cur.Asserts[key] = append(cur.Asserts[key], c)
 				}
 			case "globals":
 				for _, g := range strings.Split(rc.text, ",") {
@@ -631,6 +656,21 @@ func mentionsCall(e *SExpr, name string) bool {
 
 // bindHeader parses the Go-style header and binds it to the SSA function.
 func (eng *Engine) bindHeader(pkg *packages.Package, c *Contract) error {
+	anonParent, anonOrd := "", -1
+	if strings.HasPrefix(c.Header, "anon(") {
+		// anon(parent, n) (params) (results): the n-th function literal of package-level function parent
+		cl := strings.Index(c.Header, ")")
+		if cl < 0 {
+			return fmt.Errorf("bad anon header %q", c.Header)
+		}
+		parts := strings.Split(c.Header[5:cl], ",")
+		if len(parts) != 2 {
+			return fmt.Errorf("bad anon header %q", c.Header)
+		}
+		anonParent = strings.TrimSpace(parts[0])
+		fmt.Sscanf(strings.TrimSpace(parts[1]), "%d", &anonOrd)
+		c.Header = "zzanon" + c.Header[cl+1:]
+	}
 	src := "package p\nfunc " + c.Header + "\n"
 	if c.Kind == "lemma" {
 		// lemma name(params)
@@ -695,7 +735,14 @@ func (eng *Engine) bindHeader(pkg *packages.Package, c *Contract) error {
 	spkg := eng.SPkgs[pkg.PkgPath]
 	var fn *ssa.Function
 	var sig *types.Signature
-	if recvType == "" {
+	if anonParent != "" {
+		parent := spkg.Func(anonParent)
+		if parent == nil || anonOrd < 0 || anonOrd >= len(parent.AnonFuncs) {
+			return fmt.Errorf("binding: function literal %d of %s.%s not found", anonOrd, pkg.Name, anonParent)
+		}
+		fn = parent.AnonFuncs[anonOrd]
+		sig = fn.Signature
+	} else if recvType == "" {
 		fn = spkg.Func(c.Name)
 		if fn == nil {
 			return fmt.Errorf("binding: function %s.%s not found (renamed or removed?)", pkg.Name, c.Name)
